@@ -76,7 +76,10 @@ def run(tier):
         ck.reject({"check": "C08", "type": typ, "clauses": sorted(v["clauses"])}, {"clauses": v["clauses"], "event": small, "ver": ver}, replay={"event": ev})
     if lines:
         ev = json.loads(lines[len(lines) // 2])
-        ck.sample({"file": ev["file"], "writer": ev.get("writer"), "sizes": ev.get("cur", {}).get("out", {}).get("sizes")})
+        try:
+            ck.sample({"file": ev["file"], "writer": ev.get("writer"), "sizes": ev.get("cur", {}).get("out", {}).get("sizes")})
+        except (KeyError, IndexError, TypeError):
+            pass     # (the first record is a crash record: nothing to sample)
     for who in ("ref", "cur"):
         shutil.rmtree(os.path.join(wd, who), ignore_errors=True)
     ck.assumptions += ["the reference release is the vendored snapshot /verif/ref of the pinned sources (commit 32497ec) plus the add-only hook patch",
